@@ -266,6 +266,9 @@ func (x *Exec) acos(st *State, a *Term) *Term {
 func (x *Exec) opaqueCall(st *State, fn *ssa.Function, args []Value) []Out {
 	var flat []*Term
 	for _, a := range args {
+		if p, ok := a.(*Ptr); ok && p.cell != nil {
+			a = x.load(st, p)
+		}
 		if !flatten(a, &flat) {
 			fail("opaque call %s with non-scalar argument", fn)
 		}
